@@ -18,12 +18,22 @@ from .cfg import explore, canon_fact
 from .model import AnalysisError, FuncInfo, Repo
 
 # name -> (signalled?, terminating signal, exit status)
-STATUS = {"sig1": (True, 1, 0), "sig9": (True, 9, 0), "sig15": (True, 15, 0), "exit0": (False, 0, 0), "exit1": (False, 0, 1), "exit2": (False, 0, 2), "exit255": (False, 0, 255)}
+STATUS = {"sig1": (True, 1, 0), "sig9": (True, 9, 0), "sig15": (True, 15, 0), "sig6core": (True, 6, 0), "sig11core": (True, 11, 0),
+          "exit0": (False, 0, 0), "exit1": (False, 0, 1), "exit2": (False, 0, 2), "exit255": (False, 0, 255)}
+# signal deaths that also dumped core (the 0x80 bit of the low byte)
+CORE = frozenset(("sig6core", "sig11core"))
+
+
+def status_int(cls: str) -> int:
+    """The POSIX integer encoding of the representative (assumption A-wait): low 7 bits = terminating signal,
+    0x80 = core dumped, next byte = exit status.  Used when the code does bit arithmetic on the raw status."""
+    sg, term, ex = STATUS[cls]
+    return (term | (0x80 if cls in CORE else 0)) if sg else (ex << 8)
 
 
 def macro_table(cls: str):
     sg, term, ex = STATUS[cls]
-    return {"WIFSIGNALED": sg, "WIFEXITED": not sg, "WEXITSTATUS": ex, "WTERMSIG": term, "WIFSTOPPED": False, "WCOREDUMP": False, "WIFCONTINUED": False}
+    return {"WIFSIGNALED": sg, "WIFEXITED": not sg, "WEXITSTATUS": ex, "WTERMSIG": term, "WIFSTOPPED": False, "WCOREDUMP": cls in CORE, "WIFCONTINUED": False}
 
 
 class Evaluator:
@@ -65,6 +75,12 @@ class Evaluator:
                             hs = params[[q.dotted(a) for a in node.args].index(status)]
                             return ast.Constant(value=ev.eval_helper(h, hs, cls, depth + 1))
                 return self.generic_visit(node)
+
+            def visit_Name(self, node):
+                # the raw status used in arithmetic / comparisons (`status & 0xFF`, `status >> 8`): its POSIX encoding
+                if node.id == status and isinstance(node.ctx, ast.Load):
+                    return ast.Constant(value=status_int(cls))
+                return node
 
         return T().visit(copy.deepcopy(e))
 
